@@ -18,7 +18,10 @@ package main
 //                       U  UPDATE of mailboxes.uid_next
 //                       I  INSERT INTO message_mailbox
 //                       Q  SELECT reading message_mailbox.uid
-//                       L  SELECT reading mailboxes.name and not uid_next (lookup by name)
+//                       N  SELECT reading mailboxes.name and not (before it) uid_next: a lookup by name
+//                       V  INSERT INTO uid_validity_seq (UIDVALIDITY allocator)
+//                       M  INSERT INTO mailboxes
+//                       P  UPDATE of message_mailbox.mailbox_id (re-parenting of RENAME INBOX)
 //                       D  DELETE FROM message_mailbox
 //                       B  BEGIN          C  COMMIT
 //                     Up to and including the first statement after B a session
@@ -83,12 +86,10 @@ func c03Authorizer() func(int, string, string, string) int {
 		aUpdate = 23
 	)
 	kind := 0
-	sawName := false
 	return func(op int, a1, a2, a3 string) int {
 		switch op {
 		case aSelect:
 			kind = aSelect
-			sawName = false
 		case aTx:
 			if a1 == "BEGIN" {
 				c03gate.arrive("B")
@@ -103,11 +104,17 @@ func c03Authorizer() func(int, string, string, string) int {
 			kind = aUpdate
 			if a1 == "mailboxes" && a2 == "uid_next" {
 				c03gate.arrive("U")
+			} else if a1 == "message_mailbox" && a2 == "mailbox_id" {
+				c03gate.arrive("P")
 			}
 		case aInsert:
 			kind = aInsert
 			if a1 == "message_mailbox" {
 				c03gate.arrive("I")
+			} else if a1 == "mailboxes" {
+				c03gate.arrive("M")
+			} else if a1 == "uid_validity_seq" {
+				c03gate.arrive("V")
 			}
 		case aRead:
 			if kind == aSelect && a1 == "mailboxes" && a2 == "uid_next" {
@@ -116,13 +123,10 @@ func c03Authorizer() func(int, string, string, string) int {
 			} else if kind == aSelect && a1 == "message_mailbox" && a2 == "uid" {
 				kind = 0
 				c03gate.arrive("Q")
-			} else if kind == aSelect && a1 == "mailboxes" && a2 == "user_id" && sawName {
-				// "SELECT id FROM mailboxes WHERE name = ? AND user_id = ?": the columns are
-				// reported in the order id, name, user_id; uid_next was not among them
-				kind = 0
-				c03gate.arrive("L")
 			} else if kind == aSelect && a1 == "mailboxes" && a2 == "name" {
-				sawName = true
+				// a SELECT that reads mailboxes.name before (or without) uid_next: lookup by name
+				kind = 0
+				c03gate.arrive("N")
 			}
 		}
 		return 0
